@@ -86,6 +86,65 @@ func differOnlyInExamples(a, b []byte) bool {
 	return reflect.DeepEqual(stripExamples(x), stripExamples(y))
 }
 
+// exampleDiffNotations: the "notation" members of the objects whose "example" member differs between a and b (same shape
+// otherwise).  The recorded finding (pooled buffer in the schema library's example builder) concerns notation "jsight".
+func exampleDiffNotations(a, b []byte) map[string]int {
+	var x, y any
+	out := map[string]int{}
+	if json.Unmarshal(a, &x) != nil || json.Unmarshal(b, &y) != nil {
+		return out
+	}
+	var walk func(p, q any)
+	walk = func(p, q any) {
+		switch pm := p.(type) {
+		case map[string]any:
+			qm, ok := q.(map[string]any)
+			if !ok {
+				return
+			}
+			if e1, ok1 := pm["example"]; ok1 {
+				if e2, ok2 := qm["example"]; ok2 && !reflect.DeepEqual(e1, e2) {
+					n, _ := pm["notation"].(string)
+					if n == "" {
+						n = "?"
+					}
+					out[n]++
+				}
+			}
+			for k, v := range pm {
+				if k != "example" {
+					walk(v, qm[k])
+				}
+			}
+		case []any:
+			qa, ok := q.([]any)
+			if !ok {
+				return
+			}
+			for i := range pm {
+				if i < len(qa) {
+					walk(pm[i], qa[i])
+				}
+			}
+		}
+	}
+	walk(x, y)
+	return out
+}
+
+// knownExampleOnly: the two results differ only in "example" members of notation "jsight" (the recorded finding)
+func knownExampleOnly(a, b []byte) bool {
+	if !differOnlyInExamples(a, b) {
+		return false
+	}
+	for n := range exampleDiffNotations(a, b) {
+		if n != "jsight" {
+			return false
+		}
+	}
+	return true
+}
+
 func init() {
 	commands["stress"] = cmdStress
 }
@@ -630,6 +689,12 @@ func stressProjects(rep *stressReport, files []fixture, n int, dur time.Duration
 						class := ""
 						if differOnlyInExamples(got, f.solo) {
 							class = "example-only"
+							for n := range exampleDiffNotations(got, f.solo) {
+								if n != "jsight" {
+									// an example of another notation (regex) differs: not the recorded pool defect
+									class = "example-" + n
+								}
+							}
 						}
 						rep.violateClass("projects", fmt.Sprintf("result differs from the solo result at byte %d: concurrent ...%s... solo ...%s...", d, around(got, d), around(f.solo, d)), f.path, class)
 					}
